@@ -83,6 +83,44 @@ def _softmax_vals(args_row):
   return c.softmax[key][1]
 
 
+def case_pwl_fn_none(**p):
+  """pwl_calibration_fn with keypoint_input_parameters=None (two keypoints) against a PWLCalibration layer with the fixed
+  keypoints [input_min, input_max] holding the kernel the function derives."""
+  import tensorflow as tf
+  from tensorflow_lattice.python import conditional_pwl_calibration as cp, pwl_calibration_layer as PL
+  case = Case(PROP, p['name'], {k: v for k, v in p.items() if k != 'name'})
+  case.encoded(cp.pwl_calibration_fn, PL.PWLCalibration.call)
+  units = p['units']
+  kw = dict(units=units, keypoint_input_min=p['imin'], keypoint_input_max=p['imax'], keypoint_output_min=p.get('omin', 0.0),
+            keypoint_output_max=p.get('omax', 1.0), monotonicity=p['mono'])
+  cols = units if p.get('per_unit_input') else 1
+  tf_fn = Traced(lambda x, ko: cp.pwl_calibration_fn(x, None, ko, return_derived_parameters=True, **kw),
+                 [tf.TensorSpec([1, cols], tf.float32), tf.TensorSpec([1, units, 2], tf.float32)], name='pwl_calibration_fn[None]')
+  layer = PL.PWLCalibration(input_keypoints=[p['imin'], p['imax']], units=units)
+  layer.build(tf.TensorShape([None, cols]))
+  tl = Traced(lambda x: layer(x), [tf.TensorSpec([1, cols], tf.float32)], name='PWLCalibration.call')
+  done, mism = tf_fn.validate(np.random.default_rng(0), n=1, gen=lambda r, i, s_, t: r.integers(-4, 12, size=s_) / 4.0)
+  sym.new_ctx()
+  x = sym.symbolic('x', (1, cols))
+  ko = sym.symbolic('ko', (1, units, 2))
+  out_f, deltas, kouts = tf_fn.sym_run(x, ko)
+  kern = np.empty((2, units), dtype=object)
+  for u in range(units):
+    for i in range(2):
+      kern[i, u] = kouts[0, u, i]
+  vvl = {layer.kernel.ref(): kern}
+  (out_l,) = tl.sym_run(x, var_values=vvl)
+  case.meta.update(validation_points=done, validation_mismatch=mism, ops=tf_fn.ops_seen, stubs=sym.ctx().stubs)
+  flat = lambda outs: np.asarray(outs[0]).reshape(-1)
+  case.identity('pwl_calibration_fn-equals-layer', list(zip(out_f.reshape(-1), out_l.reshape(-1))), witness=dict(x=x, ko=ko), timeout=90,
+                sig=dict(query='pwl-fn-none'),
+                inline_replay=lambda m: core.compare_tf(m, [(tf_fn, [x, ko], {}, flat), (tl, [x], vvl, flat)]))
+  pairs = [(deltas.reshape(-1)[u], Fraction(p['imax']) - Fraction(p['imin'])) for u in range(deltas.reshape(-1).shape[0])]
+  case.identity('derived-piece-length-is-the-input-range', pairs, witness=dict(ko=ko), timeout=30, sig=dict(query='pwl-fn-none-len'), replay=None,
+                required=False)
+  return case
+
+
 def case_pwl_fn(**p):
   import tensorflow as tf
   from tensorflow_lattice.python import conditional_pwl_calibration as cp, pwl_calibration_layer as PL
@@ -444,6 +482,9 @@ def cases(tier, seed):
   add('case_pwl_fn', nk=4, units=1, mono='increasing', clamp_min=True, clamp_max=True)
   add('case_pwl_fn', nk=3, units=2, mono='increasing', clamp_min=True, omin=-1.0, omax=2.0)
   add('case_pwl_fn', nk=4, units=1, mono='none', cyclic=True)
+  add('case_pwl_fn_none', units=2, mono='none', imin=-1.0, imax=3.0, per_unit_input=True)
+  add('case_pwl_fn_none', units=1, mono='increasing', imin=0.0, imax=0.25, omin=-1.0, omax=2.0)
+  add('case_pwl_fn_none', units=1, mono='none', imin=2.0, imax=3.0)
   add('case_pwl_fn', nk=3, units=1, mono='none', cyclic=True, missing_input=-1.0)
   add('case_pwl_fn', nk=4, units=2, mono='none', cyclic=True, missing_input=0.0, omin=-1.0, omax=2.0, per_unit_input=True)
   add('case_pwl_fn', nk=3, units=2, mono='none', missing_input=-1.0, imin=1.0, imax=4.0, omin=-2.0, omax=3.0, per_unit_input=True)
